@@ -956,7 +956,8 @@ def reuse_suite(world, pool, tier, rng):
     it2 = world.add_key(41, key2, private=True, alg_attr="HS256")
     cfg_steps = [("setcb-key", "setcb key:%d:%d,alg:1" % it), ("setcb-none", "setcb -"), ("setcb-inert", "setcb getalg"),
                  ("setkey", "setkey 0 %d %d" % it), ("unsetkey", "setkey 0"), ("setcb-key2", "setcb key:%d:%d,alg:1" % it2),
-                 ("setkey2", "setkey 0 %d %d" % it2)]
+                 ("setkey2", "setkey 0 %d %d" % it2), ("setcb-ctx-only", "setcb @ctx"),
+                 ("setkey-refused", "setkey 7 %d %d" % it)]          # a context-only update keeps the callback; a refused setkey keeps the key
     vmsg = alpha[0][1].rsplit(b".", 1)[0]
     valid2 = ("valid-under-key2", vmsg + b"." + hs_sig(1, key2.k, vmsg))
     toks2 = [alpha[0], alpha[1], alpha[8], valid2]      # valid, badsig, unsigned, valid under the second key
@@ -964,7 +965,7 @@ def reuse_suite(world, pool, tier, rng):
     # the same token presented again after the key behind it changed, in every way of changing it
     ks = {n: i for i, (n, _) in enumerate(cfg_steps)}
     v1, v2 = len(cfg_steps), len(cfg_steps) + 3
-    forced = [(ks[a], t1, ks[b], t2) for a in ("setcb-key", "setkey", "setcb-key2", "setkey2") for b in ("setcb-key", "setkey", "setcb-key2", "setkey2", "setcb-none", "unsetkey")
+    forced = [(ks[a], t1, ks[b], t2) for a in ("setcb-key", "setkey", "setcb-key2", "setkey2") for b in ("setcb-key", "setkey", "setcb-key2", "setkey2", "setcb-none", "unsetkey", "setcb-ctx-only", "setkey-refused")
               for t1 in (v1, v2) for t2 in (v1, v2)]
     hist = forced + rng.sample(hist, 1500 if tier == "thorough" else 300)
     for h in hist:
@@ -1053,9 +1054,9 @@ def programs_suite(world, pool, tier, rng):
     toks += [b"abc", b"a.b", b"..", seg({"alg": "HS256"}) + b"." + seg({}) + b".", seg({"typ": "x"}) + b".e30.", None]
     item_list = list(items.items())
     NCK, NBL = 3, 3
-    cbs_ck = ["-", "getalg", "cget:json:-", "ret:2", "hdel:-", "cset:int:%s:1:1" % hx(b"exp"), "hset:str:%s:%s:1" % (hx(b"alg"), hx(b"none")),
+    cbs_ck = ["-", "@ctx", "@ctx", "getalg", "cget:json:-", "ret:2", "hdel:-", "cset:int:%s:1:1" % hx(b"exp"), "hset:str:%s:%s:1" % (hx(b"alg"), hx(b"none")),
               "hset:str:%s:%s:1" % (hx(b"alg"), hx(b"HS256")), "cdel:-", "hset:json:%s:%s:1" % (hx(b"crit"), hx(b'["x"]'))]
-    cbs_bl = ["-", "getalg", "cset:int:%s:7:1" % hx(b"k"), "ret:2", "hset:str:%s:%s:1" % (hx(b"kid"), hx(b"cb"))]
+    cbs_bl = ["-", "@ctx", "@ctx", "getalg", "cset:int:%s:7:1" % hx(b"k"), "ret:2", "hset:str:%s:%s:1" % (hx(b"kid"), hx(b"cb"))]
 
     def rand_item():
         (name, attr, private), it = rng.choice(item_list)
@@ -1559,7 +1560,10 @@ def _cfg_alphabet(it_priv):
           cset(b"iat", "int", "5", "5"), cset(b"exp", "int", "7", "7"), cset(b"nbf", "str", hx(b"n"), b"n"),
           cset(b"x", "json", hx(b'{"y":[1,2.5,"z"]}'), b'{"y":[1,2.5,"z"]}'), ("cdel " + hx(b"x"), lambda b: b.claims.delete(b"x")),
           ("cdel -", lambda b: b.claims.delete(None)),
-          ("iat 0", lambda b: setattr(b, "iat", False)), ("iat 1", lambda b: setattr(b, "iat", True))]
+          ("iat 0", lambda b: setattr(b, "iat", False)), ("iat 1", lambda b: setattr(b, "iat", True)),
+          # the application's own time claims of another JSON type (a real, a string, an array): what the library injects replaces them
+          ("cset json - %s 1" % hx(b'{"iat":1700000000.5,"nbf":2.5e9,"exp":1e9}'), lambda b: b.claims.set("json", None, b'{"iat":1700000000.5,"nbf":2.5e9,"exp":1e9}', True)),
+          ("cset json - %s 1" % hx(b'{"iat":"now","nbf":[1],"exp":{"t":1},"k":1.0}'), lambda b: b.claims.set("json", None, b'{"iat":"now","nbf":[1],"exp":{"t":1},"k":1.0}', True))]
     for cl in ("exp", "nbf"):
         for secs in (-5, 0, 1, 600, 2 ** 31 - 1, 2 ** 31, 2 ** 32 + 7, 2 ** 62):      # a span is a 64-bit time_t
             al.append(("offset %s %d" % (cl, secs), (lambda cl, secs: lambda b: setattr(b, cl + "_off", secs if secs > 0 else None))(cl, secs)))
@@ -1635,11 +1639,13 @@ def builder_suite(world, pool, tier, rng):
               "hset:str:%s:%s:1" % (hx(b"kid"), hx(b"key-A")), "hset:str:%s:%s:1" % (hx(b"kid"), hx(b"key-B")),
               "hset:str:%s:%s:1,cset:str:%s:%s:1" % (hx(b"kid"), hx(b"key-C"), hx(b"jti"), hx(b"t-1")),
               "hdel:%s" % hx(b"kid"), "hdel:%s,cdel:%s" % (hx(b"typ"), hx(b"sub")), "hset:json:-:%s:1" % hx(b'{"cty":"x","crit":["cty"]}'),
-              "cset:int:%s:7:1" % hx(b"lvl"), "hset:str:%s:%s:0" % (hx(b"kid"), hx(b"not-replacing"))]
+              "cset:int:%s:7:1" % hx(b"lvl"), "hset:str:%s:%s:0" % (hx(b"kid"), hx(b"not-replacing")),
+              "cset:int:%s:9:1,cset:int:%s:3:1" % (hx(b"ratio"), hx(b"sub"))]
     edits = [None, None, None, ("hset str %s %s 1" % (hx(b"kid"), hx(b"builder-kid")), lambda b: b.headers.set("str", b"kid", b"builder-kid", True)),
              ("hdel %s" % hx(b"kid"), lambda b: b.headers.delete(b"kid")),
              ("cset str %s %s 1" % (hx(b"sub"), hx(b"someone")), lambda b: b.claims.set("str", b"sub", b"someone", True)),
-             ("cdel %s" % hx(b"sub"), lambda b: b.claims.delete(b"sub"))]
+             ("cdel %s" % hx(b"sub"), lambda b: b.claims.delete(b"sub")),
+             ("cset json %s %s 1" % (hx(b"ratio"), hx(b"0.5")), lambda b: b.claims.set("json", b"ratio", b"0.5", True))]
     for se in range(60 if tier == "thorough" else 14):
         world.op("bl 0 new", tag="cfg")
         world.op("bl 0 setkey 0 %d %d" % it, tag="cfg")
@@ -1656,6 +1662,9 @@ def builder_suite(world, pool, tier, rng):
             if g == 0 or rng.random() < 0.6:
                 cur = sprogs[(se + g) % len(sprogs)] if g < 2 else rng.choice(sprogs)
                 world.op("bl 0 setcb " + (cur or "-"), tag="cfg")
+            elif rng.random() < 0.5:
+                world.op("bl 0 setcb @ctx", tag="cfg")          # context only: whatever callback is installed stays
+                hist.append("ctx")
             hist.append("gen[%s]" % ("-" if not cur else cur.split(":")[0] + ":" + cur.split(":")[-2][-4:]))
             now = clocks[(se + g) % len(clocks)]
             world.op("clock %d" % now, tag="cfg")
@@ -1958,6 +1967,12 @@ def roundtrip_suite(world, pool, tier, rng):
             metas.append((len(world.ops), {"kind": "gen", "hdr": JL.jenc({"alg": alg, "typ": "JWT"}), "pay": JL.jenc({"iat": 5000, "n": i}), "alg": alg,
                                            "now": 5000, "seq": "session token %d under %s, key %s" % (i, prov, "from the callback" if over else "default"), "prog": None}))
             world.op("bl 5 gen", tag="gen")
+            if i % 3 == 1:
+                # the long-lived objects see failures in between (a damaged token, an empty one, a refused configuration call):
+                # what they say about the next genuine token does not depend on it
+                world.op("ck 5 verify " + hx([b"abc", b"e30.e30.AAAA", b""][(i // 3) % 3]), tag="cfg")
+                world.op("ck 5 setkey 7 %d %d" % k1p, tag="cfg")
+                world.op("bl 5 setkey 7 %d %d" % k1p, tag="cfg")
             metas.append((len(world.ops), {"kind": "verify-generated", "key": "p256" if over else "oct32", "alg": alg, "sign": prov, "verify": prov,
                                            "want_obs": None}))
             world.op("ck 5 verify @last", tag="verify")
@@ -2285,10 +2300,34 @@ def jwk_shapes_suite(world, pool, tier, rng):
             metas.append((len(world.ops), {"kind": "item", "label": label, "idx": i, "exists": i < ni}))
             world.op("jwks %d item %d" % (s, i), tag="item")
         world.op("jwks %d errany" % s, tag="item")
+    # a set that has seen a failed load is still a set: what is loaded next goes in, key for key, through every entry point
+    # (the set's own error stays until it is cleared; it says nothing about the keys that arrive afterwards)
+    good3 = json.dumps({"keys": some[:3]}).encode()
+    for vi, via in enumerate(("strn", "str", "file", "fp", "pipe", "create")):
+        for bad_ in (b"{nope", b"", b'{"keys":[' ):
+            s = 295 - vi
+            world.op("jwks %d del" % s, cmp=False, tag="cfg")
+            world.load_doc(s, b'{"keys":[]}', "strn", tag="cfg")
+            world.load_doc(s, bad_, via if via != "create" else "strn", tag="cfg")
+            ok, tree = JL.loads(good3, decode_any=True)
+            pos = len(world.ops) + len(world.keyorc_lines(tree))
+            world.load_doc(s, good3, via)
+            metas.append((pos, {"kind": "load-after", "label": "three keys after a failed load of %r (%s)" % (bad_, via), "want": "err=1 emsg=1 n=3"}))
+            for i in range(4):
+                metas.append((len(world.ops), {"kind": "item", "label": "three keys after a failed load (%s)" % via, "idx": i, "exists": i < 3}))
+                world.op("jwks %d item %d" % (s, i), tag="item")
+            world.op("jwks %d errclr" % s, tag="cfg")
+            one = json.dumps(some[3 % len(some)]).encode()
+            ok, tree = JL.loads(one, decode_any=True)
+            pos = len(world.ops) + len(world.keyorc_lines(tree))
+            world.load_doc(s, one, via)
+            metas.append((pos, {"kind": "load-after", "label": "a fourth key after the error was cleared (%s)" % via, "want": "err=0 emsg=0 n=4"}))
     return metas
 
 
 def falsify_jwk_shapes(m, out, eo=None):
+    if m["kind"] == "load-after":
+        return None if out == m["want"] else "%s: the set answers `%s`, expected `%s`" % (m["label"], out, m["want"])
     if m["kind"] == "load":
         if m["null"]:
             return None if out in ("NULL", "noset") else "loading a NULL string returned %s" % out
@@ -2366,11 +2405,16 @@ def jwk_import_suite(world, pool, tier, rng):
                         extra["zz-unknown"] = {"deep": [1, 2, {"x": None}]}
                     variants.append((private, alg, pad, extra))
         variants = [v + (0,) for v in variants] + [v + (z,) for v in variants[:4] for z in (1, 2) if key.kind not in ("oct", "okp")]
+        # the same RSA private key written with its primes in the other order (RFC 7518 does not fix one): p<->q, dp<->dq, qi recomputed
+        variants += [v[:4] + (9,) for v in variants if key.kind in ("rsa", "rsapss") and v[0] and v[4] == 0][:3]
         for private, alg, pad, extra, zeropad in variants:
             jwk = key.jwk(private=private, alg=alg, extra=extra, pad=pad)
             if key.kind == "rsa" and not pad:
                 continue
-            if zeropad:
+            if zeropad == 9:
+                enc_ = lambda v_: K.b64u(K.int_bytes(v_))
+                jwk.update({"p": enc_(key.q), "q": enc_(key.p), "dp": enc_(key.dq), "dq": enc_(key.dp), "qi": enc_(pow(key.p, -1, key.q))})
+            elif zeropad:
                 # every integer member with one or two extra leading zero octets (what e.g. Java's BigInteger emits)
                 for mname in ("n", "e", "d", "p", "q", "dp", "dq", "qi", "x", "y"):
                     if key.kind != "okp" and isinstance(jwk.get(mname), str):
